@@ -45,6 +45,9 @@ func suiteC19(cfg Config, res *Result) {
 	defer filterTagRecursion(res, "chain", "c19-filter-tag-recursion")
 	defer filterTagIsChain(res, "chain", "c19-filter-tag-is-chain")
 	defer c19RegisterTwice(res)
+	defer c19ReplaceAfterCompile(res)
+	defer reentrantRegistry(res, "chain", "c19-registry-reentry")
+	defer recursiveMacroNodes(res, "chain", "c19-recursive-filter-tag", "filter")
 	defer c19SafeInputs(res)
 	defer c19Registry(res)
 	res.Rule = "chains of length 0..4 over the deterministic registered filters (from the VerifRegisteredFilters hook, so newly registered names are used), with literal and variable parameters, applied to string / int / float / list / nil values at every expression position (output, if, for, with, set, macro argument and default, subscript, firstof, ifequal, widthratio) and in the filter tag, also with parameters that mention the loop variable (plain and inside list literals) under a loop; three-way comparison: template output, the harness's own composition of public ApplyFilter calls, the Lean model; plus: unregistered tag/filter names are compile errors (filter tag: execution error at the latest) and registering twice is refused; non-trivial = chain length >= 2; distinct by source"
